@@ -59,6 +59,9 @@ func reg(p *propInfo) {
 
 var updMatrix = []string{"", "true", "clean", "yes"}
 
+// C05 enumerates more representatives of "any other string": spellings a lenient parser would accept
+var updMatrixWide = []string{"", "true", "clean", "yes", "TRUE", "1", "true ", "CLEAN", "t", "false"}
+
 func init() {
 	for _, id := range []string{"C01", "C02", "C03", "C04", "C16", "C17", "C18", "C19"} {
 		reg(&propInfo{id: id, engine: "inproc", pkg: "snaps", level: "model_checking"})
@@ -67,7 +70,7 @@ func init() {
 		reg(&propInfo{id: id, engine: "inproc", pkg: "snaps", level: "model_checking", envMatrix: updMatrix, shardsQ: 2, shardsT: 4})
 	}
 	reg(&propInfo{id: "C07", engine: "inproc", pkg: "snaps", level: "model_checking", envMatrix: updMatrix, shardsQ: 2, shardsT: 4, needsE3: true})
-	reg(&propInfo{id: "C05", engine: "inproc", pkg: "snaps", level: "model_checking", needsE3: true, envMatrix: updMatrix, shardsQ: 4, shardsT: 4})
+	reg(&propInfo{id: "C05", engine: "inproc", pkg: "snaps", level: "model_checking", needsE3: true, envMatrix: updMatrixWide, shardsQ: 1, shardsT: 1})
 	reg(&propInfo{id: "C06", engine: "inproc", pkg: "snaps", level: "model_checking", racePass: true, shardsQ: 16})
 	reg(&propInfo{id: "C12", engine: "inproc", pkg: "snaps", level: "model_checking", racePass: true})
 	reg(&propInfo{id: "C20", engine: "inproc", pkg: "snaps", level: "model_checking", racePass: true, envMatrix: updMatrix, shardsQ: 2, shardsT: 4})
